@@ -159,6 +159,22 @@ pub fn bls_cache_ground() -> EvalResult {
                     "cex": {"unit": "eval", "function": "bls_cache_ground", "input": {"case": name, "warm": "gt"}}}));
             }
         }
+        // the pairing-product check used as a verifier the way its documentation prescribes (the pairs (pk, H(pk ‖ msg)) and
+        // (-G1, signature)): the same verdict, in particular false for a key outside of the subgroup
+        if !pairs.iter().any(|(p, _)| p.is_inf()) {
+            res.obligations += 1;
+            let mut list: Vec<(PublicKey, Signature)> = pairs.iter().map(|(p, m)| { let mut aug = p.to_bytes().to_vec(); aug.extend_from_slice(m); (*p, chia_bls::hash_to_g2(&aug)) }).collect();
+            list.push((-PublicKey::generator(), sig.clone()));
+            let fwd = chia_bls::aggregate_pairing(list.iter().map(|(p, s)| (p, s)));
+            list.reverse();
+            let rev = chia_bls::aggregate_pairing(list.iter().map(|(p, s)| (p, s)));
+            if fwd == want && rev == want { res.discharged += 1; } else {
+                res.failures.push(json!({"id": format!("bls_cache_ground/{name}/pairing"), "function": "aggregate_pairing",
+                    "message": format!("case {name}: aggregate_pairing over the pairs (pk, H(pk ‖ msg)) and (-G1, signature) = {fwd} (reversed list: {rev}), required verdict = {want}"),
+                    "clause": "the pairing-product verifier returns the verdict of aggregate verification",
+                    "cex": {"unit": "eval", "function": "bls_cache_ground", "input": {"case": name, "warm": "pairing"}}}));
+            }
+        }
         if pairs.len() == 1 {
             // single verification agrees
             res.obligations += 1;
@@ -378,6 +394,24 @@ fn trusted_check_prog(name: &str, prog: Vec<u8>, res: &mut EvalResult) {
                         Err(e) => Err(format!("full validation accepts but get_coinspends_for_trusted_block fails: {e:?}")),
                         Ok(css) => {
                             let ids: Vec<String> = css.iter().map(|c| hex::encode(c.coin.coin_id())).collect();
+                            // the variant that also lists each spend's conditions: the same coin spends, and every CREATE_COIN of
+                            // the validated conditions among the listed conditions (they are never dropped by the per-spend limit)
+                            let with_conds = chia_consensus::run_block_generator::get_coinspends_with_conditions_for_trusted_block(&TEST_CONSTANTS, &Program::new(prog.clone().into()), blocks, flags);
+                            let wc_problem: Option<String> = match &with_conds {
+                                Err(e) => Some(format!("get_coinspends_with_conditions_for_trusted_block fails: {e:?}")),
+                                Ok(list) => {
+                                    if list.iter().map(|(c, _)| c).collect::<Vec<_>>() != css.iter().collect::<Vec<_>>() { Some("get_coinspends_with_conditions_for_trusted_block recovers other coin spends than get_coinspends_for_trusted_block".to_string()) }
+                                    else {
+                                        let mut got: Vec<(String, Vec<u8>)> = vec![];
+                                        for (_, conds) in list { for (op, args) in conds { if *op == 51 && args.len() >= 2 { got.push((hex::encode(&args[0]), args[1].clone())); } } }
+                                        let canon = |v: u64| -> Vec<u8> { if v == 0 { return vec![]; } let b = v.to_be_bytes(); let mut i = 0; while b[i] == 0 { i += 1; } let mut o = vec![]; if b[i] & 0x80 != 0 { o.push(0); } o.extend_from_slice(&b[i..]); o };
+                                        let mut want: Vec<(String, Vec<u8>)> = want_adds.iter().map(|x| (x.0.clone(), canon(x.1))).collect();
+                                        got.sort(); want.sort();
+                                        if got != want { Some(format!("the CREATE_COIN conditions it lists ({}) are not the validated additions ({})", got.len(), want.len())) } else { None }
+                                    }
+                                }
+                            };
+                            if let Some(m) = wc_problem { Err(m) } else
                             if ids != want_rems { Err(format!("recovered coin spends {ids:?} are not the validated removals {want_rems:?}")) } else {
                                 let bundle = SpendBundle::new(css, Signature::default());
                                 let mut a3 = chia_consensus::allocator::make_allocator(ConsensusFlags::LIMIT_HEAP);
